@@ -286,6 +286,33 @@ def run(ctx):
                                  f"behaviour; in practice the high bits wrap into a value the "
                                  f"kernel accepts) for arguments outside the encodable range")
 
+    # ------------------------------------------------------------------- R5
+    ctx.rule("C17.R5", "no NULL dereference on error paths: Py_DECREF / Py_INCREF is never "
+             "applied to a PyObject* local that can still hold the NULL it was "
+             "initialised with on some path (goto error before the object was created); "
+             "Py_XDECREF is required there", floor=20)
+    from ..core.ccfg import null_deref_sites
+    for file, fn in funcs:
+        uses = [n for n in C.walk(fn) if n.get("kind") == "CallExpr"
+                and C.callee(n) in ("Py_DECREF", "Py_INCREF")]
+        if not uses:
+            continue
+        bad = null_deref_sites(fn)
+        badk = {(v, ln) for v, ln, _ in bad}
+        for n in uses:
+            args = C.call_args(n)
+            v = (C.strip_all(args[0]).get("referencedDecl") or {}).get("name") if args else None
+            key = f"{fn['name']}:{C.callee(n)}:{v}"
+            if (v, n.get("_line", 0)) in badk:
+                ctx.fail("C17.R5", key, fn["_file"], n["_line"], fn["name"],
+                         f"`{C.callee(n)}({v})` is reachable while {v} is still NULL (it is "
+                         f"set to NULL and this point can be reached, e.g. through `goto "
+                         f"error`, before an object is stored in it): NULL dereference, "
+                         f"the interpreter crashes instead of raising")
+            else:
+                ctx.ok("C17.R5", key, nontrivial=False if v is None else True,
+                       sample=f"{fn['name']}: {C.callee(n)}({v}) only where {v} is non-NULL")
+
     # ------------------------------------------------------------------- R5/R6
     ctx.rule("C17.R6", "resource typestate: setmntent/endmntent, socket/close, "
              "CPU_ALLOC/CPU_FREE, getifaddrs/freeifaddrs are released exactly once on "
